@@ -3,6 +3,8 @@ from props_common import BASE_TB
 PROP = {
     "modules": ["YorkieModel.Props.C08", "YorkieModel.Props.C08Json"],
     "engines": [
+        # integrated engine: real client SDK + real in-process server (memory DB), traffic captured at the HTTP transport
+        {"name": "srv", "args": ["orc=c08"], "quick": {"n": 320, "workers": 8}, "thorough": {"n": 8000, "workers": 14}},
         {"name": "docupd", "quick": {"n": 1200, "workers": 8}, "thorough": {"n": 60000, "workers": 14}},
         {"name": "crdt", "quick": {"n": 600, "workers": 6}, "thorough": {"n": 30000, "workers": 14}},
         # presence dimension of all-or-nothing: failing updaters that touch presence
